@@ -44,7 +44,7 @@ class PeekCheck:
         if adt in self.peek_trees:
             return self.peek_trees[adt]
         self.peek_trees[adt] = None
-        b = self.m.body(self.peek_fn[adt])
+        b = self.m.body_inlined(self.peek_fn[adt])
         if b is None:
             return None
         trees = []
@@ -187,7 +187,7 @@ class PeekCheck:
     def _check(self, adt):
         if adt not in self.peek_fn or adt not in self.next_fn:
             return 'no peek/next pair'
-        nb = self.m.body(self.next_fn[adt])
+        nb = self.m.body_inlined(self.next_fn[adt])
         if nb is None:
             return 'no body'
         P = self.peek_tree(adt)
@@ -203,6 +203,11 @@ class PeekCheck:
             R = self.canon(ps.ret, ps, final=True)
             if P is not None and same_tree(R, P):
                 continue
+            if P is not None and P[0] == 'SF' and isinstance(R, tuple) and R and R[0] == 'const':
+                # the path returns a literal and stored that very literal into the field peek() reads, as its last write
+                fin = ps.known.get((P[1], ps.final_version(P[1][0])))
+                if fin is not None and unclone(fin) == R:
+                    continue
             if R[0] == 'peek' and R[1] == adt and R[2] == ():
                 continue    # returns self.peek() evaluated last (peek branches: kept opaque)
             bad.append((R, ps))
